@@ -297,7 +297,7 @@ def cexpr_text(v: Any) -> str:
     if "bool" in v:
         return "true" if v["bool"] else "false"
     if "str" in v:
-        return '"' + v["str"] + '"'
+        return '"' + v.get("src", v["str"]) + '"'  # `src`: the spelling with escape sequences, when it differs
     return ".".join(v["ref"])
 
 
@@ -394,20 +394,56 @@ def replace_base(t: Any, new: Any) -> Optional[Any]:
     return new
 
 
-def mutate(rng: random.Random, files: List[dict], main: str) -> Optional[Tuple[List[dict], str, str, Any, bool]]:
+RESOLUTION_KINDS = ["forward", "import-leak", "undef-type", "undef-const", "const-as-type", "msg-as-cap"]
+
+
+def mutate(rng: random.Random, files: List[dict], main: str, kinds: Optional[List[str]] = None) -> Optional[Tuple[List[dict], str, str, Any, bool]]:
     """returns (files, rule family, file of the violation, the mutated item (its 'line' is the expected line), traditional)"""
+    out = _mutate(rng, files, main, kinds)
+    if out is not None and rng.random() < 0.2:
+        # a string with escape sequences above everything else in the file of the violation: it must not move any line number
+        for x in out[0]:
+            if x["name"] == out[2]:
+                x["items"].insert(0, {"k": "const", "name": "ESCAPEDQ", "v": {"str": "a\nb\tc\n", "src": "a\\nb\\tc\\n"}})
+    return out
+
+
+def _mutate(rng: random.Random, files: List[dict], main: str, kinds: Optional[List[str]] = None) -> Optional[Tuple[List[dict], str, str, Any, bool]]:
     files = copy.deepcopy(files)
     f = rng.choice(files)
     items = all_items(f)
     fields = [(it, p) for (it, p, d) in items if it["k"] == "field"]
     msgs = [it for (it, p, d) in items if it["k"] == "msg"]
     enums = [it for (it, p, d) in items if it["k"] == "enum"]
-    kind = rng.choice(["width", "cap", "fnum", "fdup", "enum-dup", "enum-over", "dup-def", "dup-field-name", "alias-named", "place-msg",
+    kind = rng.choice(kinds or ["width", "cap", "fnum", "fdup", "enum-dup", "enum-over", "dup-def", "dup-field-name", "alias-named", "place-msg",
                        "place-enum", "opt-unknown", "opt-type", "opt-range", "undef-type", "forward", "const-as-type", "msg-as-cap",
                        "bool-as-cap", "cyclic", "dup-import", "missing-import", "size", "maxbytes", "undef-const", "traditional",
-                       "enum-width", "array-of-array"])
+                       "enum-width", "array-of-array", "import-leak", "size"])
     trad = False
     fn = f["name"]
+    if kind == "import-leak":
+        # names declared by the IMPORTING file (before its import line) are not visible inside the imported file
+        importers = [x for x in files if any(i["k"] == "import" for i in x["items"])]
+        imported = {i["file"].split("/")[-1] for x in importers for i in x["items"] if i["k"] == "import"}
+        libs = [x for x in files if x["name"] in imported]
+        if not libs:
+            return None
+        lib = rng.choice(libs)
+        as_const = rng.random() < 0.4
+        for x in importers:
+            if as_const:
+                x["items"].insert(0, {"k": "const", "name": "LEAKQ", "v": {"int": 3}})
+            else:
+                x["items"].insert(0, {"k": "enum", "name": "Leakq", "nbits": 5, "members": [{"name": "LEAKQ_Z_" + x["proto"].upper(), "value": 0}]})
+        ty = {"array": "byte", "cap": {"cref": ["LEAKQ"]}, "ext": False} if as_const else {"ref": ["Leakq"]}
+        bad = {"k": "msg", "name": "Leakyq", "ext": False, "items": [{"k": "field", "name": "leak", "num": 1, "ty": ty}]}
+        if rng.random() < 0.5:  # ... not even when the imported file declares the name itself LATER
+            lib["items"].append(bad)
+            lib["items"].append({"k": "const", "name": "LEAKQ", "v": {"int": 2}} if as_const else
+                                {"k": "enum", "name": "Leakq", "nbits": 1, "members": [{"name": "LEAKQ_LATE", "value": 0}]})
+        else:
+            lib["items"].append(bad)
+        return files, "undefined-constant" if as_const else "undefined-type", lib["name"], bad["items"][0], trad
     if kind == "width" and fields:
         it, _ = rng.choice(fields)
         signed = rng.random() < 0.5
@@ -606,6 +642,10 @@ def mutate(rng: random.Random, files: List[dict], main: str) -> Optional[Tuple[L
         its = [{"k": "field", "name": "big_a", "num": 1, "ty": {"array": {"uint": 64}, "cap": {"lit": n64}, "ext": False}}]
         if rest:
             its.append({"k": "field", "name": "big_b", "num": 2, "ty": {"uint": rest}})
+        if rng.random() < 0.5:
+            # a max_bytes option that is satisfied does not lift the 65535-bit limit
+            nbytes = (total + (16 if ext else 0) + 7) // 8
+            its.insert(0, {"k": "option", "name": "max_bytes", "v": {"int": nbytes + rng.choice([0, 0, 1, 1808])}})
         m = {"k": "msg", "name": "Hugeq", "ext": ext, "items": its}
         f["items"].append(m)
         return files, "message-size-overflow" if over else "ACCEPT", fn, m, trad
